@@ -4,6 +4,7 @@ from props.m1common import g, sp, sx, rng_for, is_err, compare_result, shrink_tr
 
 PID = "C15"
 RUNNER = "impl_m1.py"
+VM_CROSSCHECK = True
 N = {"quick": 2100, "thorough": 75000}
 LEVEL_RULE = ("three case kinds in equal shares. split_child_at: random sequences and simultaneities (leaf, sequence and "
               "simultaneity voices, depth <= 4, zero-length leaves), times in [0, duration) on child boundaries +-1 tick and in leaf "
